@@ -658,8 +658,14 @@ def overlap_scenarios(tier, known=()):
     add("stop-during-stopping", two_events, ["runupto", 8], [dict(hold_stop, until=["main_returned"])], ["stop"], "WSetStopped")
     add("step-during-stopping", two_events, ["runupto", 8], [dict(hold_stop, until=["main_returned"])], ["step"], "WSetStopped")
     add("end-replication-during-stopping", two_events, ["runupto", 8], [dict(hold_stop, until=["main_returned"])], ["endrepl"], "WSetStopped")
-    add("cleanup-during-stopping", two_events, ["runupto", 8], [dict(hold_stop, until=["or", ["rs", "STOPPING"], ["main_returned"]], timeout=0.3)],
+    # cleanup() / initialize() while a slow STOP subscriber (0.4 s) keeps the run thread between STOPPING and STOPPED:
+    # cleanup must wait for the run thread (its _stop_impl does, for up to a second) before it resets the states,
+    # or the old run thread writes STOPPED over NOT_INITIALIZED / INITIALIZED afterwards
+    add("cleanup-during-stopping", two_events, ["runupto", 8], [dict(hold_stop, until=["never"], timeout=0.4)],
         ["cleanup"], "WSetStopped")
+    S[-1]["strict"] = True
+    add("initialize-during-stopping", two_events, ["runupto", 8], [dict(hold_stop, until=["never"], timeout=0.4)],
+        ["init", 0, 0, 16], "WSetStopped", m2=False)
     # --- a command while END_REPLICATION is being notified (states already ENDED, thread not yet finalized)
     for c in (["start"], ["step"], ["stop"], ["endrepl"], ["cleanup"]):
         add(f"{c[0]}-during-end-replication", one_event, ["start"],
@@ -714,7 +720,7 @@ def overlap_oracle(sc, obs):
                 return f"overlap:{name}:{bad[0]}", bad[1]
         if ent[0] == "cmd" and ent[1][0] == "cleanup":
             detached = True
-        if ent[0] == "overlap-begin" and sc["cmd"][0] == "cleanup":
+        if ent[0] == "overlap-begin" and sc["cmd"][0] in ("cleanup", "init"):
             detached = True
         if ent[0] == "icmd" and ent[1][0] == "init" and ent[2] == "ok":
             detached = True
